@@ -47,13 +47,14 @@ func init() {
 						return true
 					}
 					return false
-				}, 7)
+				}, 5)
 				ruleEnumExhaustive(c, "C01.R1", []string{"engine", "ast"}, func(es *enumSwitch) bool {
 					return strings.HasSuffix(types.TypeString(es.typ, shortQual), "AstCharacterClassType")
 				}, 2)
 			}},
 			{Name: "C01.R2", Run: func(c *Ctx) { ruleRelocationComplete(c, "C01.R2") }},
 			{Name: "C01.R4", Run: func(c *Ctx) { ruleRelocationScope(c, "C01.R4") }},
+			{Name: "C01.R5", Run: func(c *Ctx) { ruleLoopProtocol(c, "C01.R5") }},
 			{Name: "C01.R3", Run: func(c *Ctx) { ruleScanDiscipline(c, "C01.R3"); ruleAttemptFresh(c, "C01.R3b") }},
 		},
 	})
@@ -198,7 +199,7 @@ func init() {
 					"msg:\"BAD CALL STACK :(\"":                               "call stack non-empty inside a subroutine (VM invariant)",
 					"msg:\"WOW THAT IS NOT GOOD :(\"":                         "the byte at the scan offset exists because the scan loop leaves when the offset reaches reader.Size() (value-level)",
 					"msg:\"Attempting to read value from empty optional :(\"": "callers test HasValue() first (C17.R2)",
-				}, 20, special)
+				}, 12, special)
 			}},
 			{Name: "C09.R2", Run: func(c *Ctx) { ruleCheckerSubsetEvaluator(c, "C09.R2", nil) }},
 			{Name: "C09.R3", Run: func(c *Ctx) { ruleMonotoneTypes(c, "C09.R3") }},
